@@ -517,6 +517,11 @@ class Engine:
                     else:
                         yield st3, ops.binop(st3, op, a, b)
                 continue
+            if op == "%" and a.ty.kind == "str" and b.ty.kind == "opt" and b.ty.args[0].kind == "str":
+                # 'fmt' % <Opt[str]>: None is formatted as the text 'None', a string as itself
+                for st3, isn in self.branch(st2, b.isnone):
+                    yield st3, ops.binop(st3, op, a, vstr("None") if isn else b.val, alloc=lambda s, _st=st3: self.alloc_list(_st, s))
+                continue
             if op in ("+", "-") and {a.ty.kind, b.ty.kind} <= {"any", "int"} and "any" in (a.ty.kind, b.ty.kind) \
                     and not getattr(self.contract, "opaque_attrs", False):
                 # arithmetic on a dynamically typed operand: proved to be an int (obligation), then exact
@@ -1872,6 +1877,8 @@ class Engine:
                 continue
             if is_dictlike(it.ty):
                 seqv = self.dict_key_seq(st1, it)
+            elif it.ty.kind == "set":
+                seqv = self.set_elem_seq(st1, it)
             elif getattr(it, "_range", None) is not None:
                 seqv = it
             else:
@@ -1881,6 +1888,18 @@ class Engine:
                 seqv = _copy.copy(seqv)
                 seqv._enumerate = True
             yield from self.loop_rule(s, st1, k, ls, ("seq", seqv))
+
+    def set_elem_seq(self, st, sv: V) -> V:
+        """iteration order of a set: some sequence holding exactly its elements, each once (the set as it is when
+        the loop starts; a body that changes the set being iterated is outside the model)"""
+        et = sv.ty.args[0]
+        dom = st.set_get(sv)
+        ks = fresh(SEQ(et), "elems")
+        x = z3.Const("e!ss", sort_of(et))
+        st.assume(z3.ForAll([x], z3.Select(dom, x) == z3.Contains(ks.t, z3.Unit(x))))
+        i, j = z3.Int("i!ss"), z3.Int("j!ss")
+        st.assume(z3.ForAll([i, j], z3.Implies(z3.And(0 <= i, i < j, j < z3.Length(ks.t)), ks.t[i] != ks.t[j])))
+        return ks
 
     def dict_key_seq(self, st, d: V) -> V:
         kt, vt = dict_tys(d.ty)
